@@ -37,6 +37,7 @@ type Input struct {
 	BadHook  []any    `json:"bad_hook,omitempty"`
 	// a SESSION: 2-6 related documents loaded one after another by ONE process (and each of them
 	// alone by a fresh process); the oracle tables above then hold for the whole session
+	Rule    string `json:"rule,omitempty"` // inter-field streams: the rule and the variant (tags only)
 	Family  string `json:"family,omitempty"`
 	Session []Step `json:"session,omitempty"`
 }
@@ -412,6 +413,9 @@ func Render(in Input, obs *Obs, crash string) core.Case {
 	if in.Fault != "" {
 		c.Tags = append(c.Tags, "fault:"+strings.SplitN(in.Fault, " ", 2)[0])
 	}
+	if in.Rule != "" {
+		c.Tags = append(c.Tags, "rule:"+in.Rule)
+	}
 	if !in.IsRaw {
 		c.Tags = append(c.Tags, "version:"+in.Version)
 		if in.Fault == "" {
@@ -439,6 +443,6 @@ func Render(in Input, obs *Obs, crash string) core.Case {
 
 var Driver = core.Driver[Input, Obs]{
 	Spec: core.Spec{Property: "C10", Imports: []string{"Json", "C10_Model", "C10_Spec", "C10_Corr"}, Corr: "C10_Corr", Triggers: nil, ShrinkKey: "session",
-		Rule: "HookConfig.LoadAndValidate under recover on (valid) grammar-generated v1/v0 documents with every option combination, each rendered as JSON and as YAML (both loads dumped into a canonical projection and compared with each other and with the model); (fault) every kind of single-fault mutation of a valid document (must be rejected); (raw) random / truncated / bit-flipped bytes (must not panic; no model); (session) 2-6 RELATED documents loaded one after another by ONE fresh process and each of them alone by its own fresh process: the same document again (other quoting / key order), a valid document and its one-fault variant in both orders, documents whose crontabs (@descriptors, @every, TZ= prefix, 5 and 6 fields), binding names, includes, groups, selectors differ only in letter case or blank placement - every load must meet P, the in-session observation must equal the alone observation (history independence), one document one outcome; the model threads the SchemasCache through the session; oracle tables for crontabs, label selectors, durations, webhook validity are labelled by the generator (session crontab / selector variants: by robfig/cron.v2 and apimachinery themselves, the external oracles, checked against a hand-labelled table); non-trivial = a document, non-empty raw bytes, or a session of at least 2 loads; distinct = distinct document+fault / distinct bytes / distinct list of documents"},
+		Rule: "HookConfig.LoadAndValidate under recover on (valid) grammar-generated v1/v0 documents with every option combination, each rendered as JSON and as YAML (both loads dumped into a canonical projection and compared with each other and with the model); (fault) every kind of single-fault mutation of a valid document (must be rejected); (interfield) the validity rules that relate TWO fields and that Go code checks after the schema, systematically: nameSelector.matchNames x a fieldSelector requirement on metadata.name for each of the five operator spellings x each position in lists of 1-3 requirements x three binding placements (must be rejected) with the valid neighbours (other field under the same operator, no nameSelector, empty matchNames, the two selectors in two bindings, namespace.nameSelector instead) which must load with the declared selectors; label selector operator x values (absent / empty / one / two) x requirement position at the six places a v1 binding declares a label selector; includeSnapshotsFrom unknown / ambiguous / known / duplicated-but-not-included / with group in all five binding arrays; duplicated binding names in all five arrays; allowFailure x queue x executeHookOnEvent / watchEvent x waitForSynchronization combinations (no rule: must load); (interfield-random) the same clashes and neighbours planted at a random binding and position of a random grammar-generated document; (raw) random / truncated / bit-flipped bytes (must not panic; no model); (session) 2-6 RELATED documents loaded one after another by ONE fresh process and each of them alone by its own fresh process: the same document again (other quoting / key order), a valid document and its one-fault variant in both orders, documents whose crontabs (@descriptors, @every, TZ= prefix, 5 and 6 fields), binding names, includes, groups, selectors differ only in letter case or blank placement - every load must meet P, the in-session observation must equal the alone observation (history independence), one document one outcome; the model threads the SchemasCache through the session; oracle tables for crontabs, label selectors, durations, webhook validity are labelled by the generator (session crontab / selector variants: by robfig/cron.v2 and apimachinery themselves, the external oracles, checked against a hand-labelled table); non-trivial = a document, non-empty raw bytes, or a session of at least 2 loads; distinct = distinct document+fault / distinct bytes / distinct list of documents"},
 	Gen: Gen, Run: Run, Render: Render, PerShard: 150, Workers: 8, CaseTimout: 20 * time.Second,
 }
